@@ -48,7 +48,7 @@
 
 use crate::dp::DifferentialPrivacyStrategy;
 use crate::field::{FieldElement, FieldElementWithInteger, FieldError, NttFriendlyFieldElement};
-use crate::fp::log2;
+use crate::fp::{log2, MAX_ROOTS};
 use crate::ntt::NttError;
 use crate::polynomial::{
     extend_values_to_power_of_2, get_double_evaluations, poly_eval_lagrange_batched,
@@ -736,6 +736,10 @@ impl<F: NttFriendlyFieldElement> QueryShimGadget<F> {
         let gadget_polynomial = &proof_data[inner.arity()..];
 
         let next_power_of_two = gadget_polynomial.len().next_power_of_two();
+        if next_power_of_two > 1 << MAX_ROOTS {
+            // The roots of unity needed to extend the gadget polynomial are not available.
+            return Err(FlpError::Ntt(NttError::SizeTooLarge));
+        }
         let mut gadget_polynomial_evaluations = Vec::with_capacity(next_power_of_two);
         gadget_polynomial_evaluations.extend_from_slice(gadget_polynomial);
         gadget_polynomial_evaluations.resize(next_power_of_two, F::zero());
